@@ -138,10 +138,12 @@ NOT_YET = {}
 PROVED = {
  "C01": "for static trees of any size and depth (elements with static ids/classes/attributes, text, comments, doctype) the literal the emitter "
         "writes reads back, by the model of strconv.Unquote, as exactly the denoted HTML, and a template with a static body is exactly prologue + one "
-        "WriteString + error check + epilogue; for templates with interpolation, `=` scripts and brace-less `-` blocks (if/for/switch without else) the generated "
-        "body is proved to be a run of literal chunks, dynamic blocks (value through goht.EscapeString) and `stmt { code of the nested block }`; the "
-        "whitespace pass is the identity on marker-free static HTML. Else-chains, dynamic attributes/classes, @render/@children, filters, and Go's "
-        "execution of the emitted statements are covered by the denotation runs only: partial.",
+        "WriteString + error check + epilogue; for templates of the fragment of Proofs/SegProofs.v (static markup, interpolation, `=` scripts, unescaped lines, "
+        "static/dynamic/conditional attributes, `-` Go lines, brace-less if/else-if/else chains, for, switch with case lines, @render with/without nested "
+        "content, @children; any size and nesting) the generated body is proved to be a run of a grammar of generated code (`denotes`) standing for the "
+        "segment list of the template (literal HTML that reads back exactly, escaped / raw expression values, `stmt { code of the nested block }`, "
+        "Render/PushChildren calls); the whitespace pass is the identity on marker-free static HTML. Dynamic class lists / object references / @attributes, "
+        "filters, comment blocks, whitespace marks, and Go's execution of the emitted statements are covered by the denotation runs only: partial.",
  "C02": "besides the escaping function: the exact code emitted for `= expr`/`#{}` (wrapped in goht.EscapeString once in an escaping context, not at all "
         "in an unescaped one) and for dynamic attribute values (always escaped), from any writer state.",
  "C03": "temporaries are never reused inside a template (itoa injective, counter never decreases over any template-body tree), the import list has no "
